@@ -104,3 +104,31 @@ fn c08_week_bounds() {
     kani::cover!(last.is_none());
     kani::cover!(back == 6);
 }
+
+// @ob tier=quick timeout=900
+// @desc years_since: NaiveDate::years_since(base) and DateTime<Utc>::years_since(base) return the number of whole years elapsed -- year difference minus one when the (month, day[, time of day]) of self is earlier than base's -- and None when self is before base
+// @bounds all pairs of dates; all pairs of UTC date-times (non-leap times); reference month scan unwound 13
+// @funcs NaiveDate::years_since, DateTime::years_since
+#[kani::proof]
+#[kani::unwind(13)]
+fn c08_years_since() {
+    use chrono::{NaiveTime, TimeZone, Utc};
+    let (a, b) = (any_date(), any_date());
+    let (ya, oa, yb, ob) = (a.year(), a.ordinal(), b.year(), b.ordinal());
+    kani::assume(valid_yo(ya, oa) && valid_yo(yb, ob));
+    let (ma, da) = md_of_ordinal(ya, oa);
+    let (mb, db) = md_of_ordinal(yb, ob);
+    let want = |earlier: bool| -> Option<u32> {
+        let y = ya as i64 - yb as i64 - if earlier { 1 } else { 0 };
+        if y >= 0 { Some(y as u32) } else { None }
+    };
+    assert!(a.years_since(b) == want((ma, da) < (mb, db)));
+    let (sa, sb): (u32, u32) = (kani::any(), kani::any());
+    kani::assume(sa < 86_400 && sb < 86_400);
+    let ta = NaiveTime::from_num_seconds_from_midnight_opt(sa, 0).unwrap();
+    let tb = NaiveTime::from_num_seconds_from_midnight_opt(sb, 0).unwrap();
+    let (dta, dtb) = (Utc.from_utc_datetime(&a.and_time(ta)), Utc.from_utc_datetime(&b.and_time(tb)));
+    assert!(dta.years_since(dtb) == want((ma, da, sa) < (mb, db, sb)));
+    kani::cover!(ma == mb && da == db && sa < sb && ya > yb);
+    kani::cover!(a.years_since(b).is_none());
+}
